@@ -528,6 +528,17 @@ def judge_case(spec, rec):
     grader = build_grader(spec)
     text = render_sub(spec, 0, spec['sub'])
     expect_arg = text_list(spec, 0, spec['answers'][0]['lists'][0]) if spec['form'] == 'infer' else None
+    if len(text) % 3 == 0:
+        # object sharing: the subgrader OBJECT of the list under test also serves a second list grader with the opposite
+        # ordering / partial-credit settings, which grades first (an author may reuse one subgrader in several problems)
+        L0 = levels[0]
+        rival = SingleListGrader(subgrader=grader.config['subgrader'], delimiter=L0['delim'], ordered=not L0['ordered'],
+                                 partial_credit=not L0['pc'], length_error=False, missing_error=False)
+        exp_text = text_list(spec, 0, spec['answers'][0]['lists'][0])
+        call(rival, exp_text, text)
+        call(rival, exp_text, exp_text)
+        rec.calls(2)
+        rec.cls('subgrader-object-shared-with-a-rival-list')
     kind, val = call(grader, expect_arg, text)
     rec.calls()
 
